@@ -79,7 +79,11 @@ pub fn renumber(pd: &Pd, shift: usize) -> Pd {
     labels.sort();
     labels.dedup();
     let k = labels.len();
-    let map: BTreeMap<usize, usize> = labels.iter().enumerate().map(|(i, &e)| (e, 10 + ((i * 7 + shift) % k) * 3)).collect();
+    // a multiplier coprime to k makes i -> (i*mult + shift) mod k a bijection of the labels
+    fn gcd(a: usize, b: usize) -> usize { if b == 0 { a } else { gcd(b, a % b) } }
+    let mult = (5..).find(|m| gcd(*m, k.max(1)) == 1).unwrap();
+    let map: BTreeMap<usize, usize> = labels.iter().enumerate().map(|(i, &e)| (e, 10 + ((i * mult + shift) % k) * 3)).collect();
+    debug_assert!(map.values().collect::<std::collections::BTreeSet<_>>().len() == k);
     pd.iter().map(|x| [map[&x[0]], map[&x[1]], map[&x[2]], map[&x[3]]]).collect()
 }
 
